@@ -12,7 +12,7 @@ The statement names mechanisms, each with a structural necessary condition that 
  8. R-RESUME: every position a statement can be resumed at has a dispatch arm
 """
 from lib import (sfx, get_fn, callers_of, expr_has_field, on_ok_arm, strip_expr, strip_refs, show, expr_calls, expr_params, aggregates, path_records,
-                 bool_switch_true_target, exclusive_region, region_aggregates)
+                 bool_switch_true_target, exclusive_region, region_aggregates, controlling_switches)
 import common
 from props import C06, C16
 
@@ -133,7 +133,7 @@ def run(ck, F, E):
         if ok and tv is not None and tv[0] == "param" and sv[0] == "param":
             from lib import call_names_deep
             at, as_ = c[0].args[tv[1]], c[0].args[sv[1]]
-            ok = "evaluate_expression" in call_names_deep(fe, fe.expr(at)) and strip_expr(fe.expr(at)) != strip_expr(fe.expr(as_))
+            ok = any(x.startswith("evaluate_") for x in call_names_deep(fe, fe.expr(at))) and strip_expr(fe.expr(at)) != strip_expr(fe.expr(as_))
         ck.require(ok, "C03:FOR:operands", "limit and step fixed at entry", "start_loop receives the evaluated TO and STEP operands",
                    "evaluate_for_statement no longer passes its evaluated operands to start_loop", fe.span, nontrivial=False)
         # default step 1.0
@@ -173,6 +173,25 @@ def run(ck, F, E):
                     if n == "None":
                         t = info[1].get(v, info[2])
                         if any(sfx(c.callee, "Value::default_for_variable") and c.bb in exclusive_region(vg, t) for c in vg.calls()):
+                            ok = True
+        if not ok:
+            from lib import with_closures
+            # `map.get(name).cloned().unwrap_or_else(|| default_for_variable(..))`
+            for cb in with_closures(F, vg)[1:]:
+                if cb.calls_to("Value::default_for_variable") and any(c.callee.split("::")[-1] in ("unwrap_or_else", "map_or_else") and
+                                                                       any(x[1].endswith("::get") for x in expr_calls(vg.expr(c.args[0])))
+                                                                       for c in vg.calls()):
+                    ok = True
+            # `if !self.has(name) { return default_for_variable(..) }`
+            for c in vg.calls_to("Value::default_for_variable"):
+                for (sb, subj, names) in controlling_switches(vg, c.bb):
+                    nm = [x[1].split("::")[-1] for x in expr_calls(subj)]
+                    if "contains_key" in nm or "has" in nm:
+                        ft = bool_switch_true_target(vg, sb)
+                        e_ = strip_expr(subj)
+                        neg = e_[0] == "unop" and e_[1] == "Not"
+                        missing_arm = ft[1] if neg else ft[0]
+                        if vg.dominates(missing_arm, c.bb) or c.bb == missing_arm:
                             ok = True
         ck.require(ok, "C03:DEFAULT:variable", "defaults", "a missing variable reads as default_for_variable(name)",
                    "Variables::get no longer returns the name's default on a miss", vg.span)
@@ -221,7 +240,11 @@ def run(ck, F, E):
                    "next_line no longer uses ProgramLines::after", nl.span, nontrivial=False)
     rn = get_fn(ck, F, "Interpreter::run_next_statement")
     if rn is not None:
-        ok = bool(rn.calls_to("Program::next_line")) and bool(rn.calls_to("Program::has_next_token"))
+        # (in run_next_statement itself or in a private helper of the interpreter it calls)
+        from lib import deep_calls
+        dc = [c.callee for (_o, c) in deep_calls(F, rn, lambda p: p.startswith("abasic_core::interpreter::Interpreter::") and
+                                                 not p.endswith("::run_next_statement"), depth=1)]
+        ok = any(sfx(x, "Program::next_line") for x in dc) and any(sfx(x, "Program::has_next_token") for x in dc)
         ck.require(ok, "C03:SEQ:advance-when-exhausted", "line sequencing", "the next line is entered when the current one is exhausted",
                    "run_next_statement no longer advances to the next line when the line is exhausted", rn.span)
 
